@@ -251,6 +251,21 @@ func (env *stackEnv) build(s string) (ociregistry.Interface, string, error) {
 	case "sub":
 		env.subPrefix = "pfx/sub"
 		return ocifilter.Sub(args[0], env.subPrefix), rest, nil
+	case "funcs":
+		// the registry as a function table (*ociregistry.Funcs with every field set and an error constructor):
+		// a pass-through, and the shape other wrappers may recognise
+		x := args[0]
+		return &ociregistry.Funcs{
+			NewError: func(ctx context.Context, methodName, repo string) error {
+				return fmt.Errorf("%s %s: %w", methodName, repo, ociregistry.ErrUnsupported)
+			},
+			GetBlob_: x.GetBlob, GetBlobRange_: x.GetBlobRange, GetManifest_: x.GetManifest, GetTag_: x.GetTag,
+			ResolveBlob_: x.ResolveBlob, ResolveManifest_: x.ResolveManifest, ResolveTag_: x.ResolveTag,
+			PushBlob_: x.PushBlob, PushBlobChunked_: x.PushBlobChunked, PushBlobChunkedResume_: x.PushBlobChunkedResume,
+			MountBlob_: x.MountBlob, PushManifest_: x.PushManifest,
+			DeleteBlob_: x.DeleteBlob, DeleteManifest_: x.DeleteManifest, DeleteTag_: x.DeleteTag,
+			Repositories_: x.Repositories, Tags_: x.Tags, Referrers_: x.Referrers,
+		}, rest, nil
 	case "ro":
 		return ocifilter.ReadOnly(args[0]), rest, nil
 	case "immw":
